@@ -525,3 +525,104 @@ def subst(t, mapping, memo=None):
         r = t.decl()(*[subst(c, mapping, memo) for c in t.children()])
     memo[k] = r
     return r
+
+
+# ------------------------------------------------------------------------------------------------
+# canonical rational form (sympy): used to key purified applications in relational checks
+
+
+_canon_cache = {}
+
+
+def _size(t, seen):
+    if t.get_id() in seen:
+        return 0
+    seen.add(t.get_id())
+    return 1 + sum(_size(c, seen) for c in t.children())
+
+
+def canon(t, max_size=120):
+    """a canonical representative of the rational function t (reduced fraction, expanded, sympy's term order);
+    semantically equal to t wherever t's denominators are non-zero.  Atoms: variables (incl. purified ones).
+    Terms that are too large or contain other operators are returned unchanged."""
+    import sympy
+
+    k = t.get_id()
+    if k in _canon_cache:
+        return _canon_cache[k][1]
+    out = t
+    if is_num(t) or z3.is_const(t):
+        return t
+    if _size(t, set()) <= max_size:
+        atoms = {}
+
+        def to_sp(u):
+            if is_num(u):
+                return sympy.Rational(u.numerator_as_long(), u.denominator_as_long())
+            if z3.is_const(u):
+                s = sympy.Symbol("v%d" % u.get_id())
+                atoms[s] = u
+                return s
+            kind = u.decl().kind()
+            ch = [to_sp(c) for c in u.children()]
+            if kind == z3.Z3_OP_ADD:
+                return sympy.Add(*ch)
+            if kind == z3.Z3_OP_SUB:
+                return ch[0] - sympy.Add(*ch[1:])
+            if kind == z3.Z3_OP_MUL:
+                return sympy.Mul(*ch)
+            if kind == z3.Z3_OP_DIV:
+                return ch[0] / ch[1]
+            if kind == z3.Z3_OP_UMINUS:
+                return -ch[0]
+            raise NotImplementedError
+
+        def to_z3(e):
+            if e.is_Rational:
+                return z3.RealVal("%d/%d" % (e.p, e.q))
+            if e.is_Symbol:
+                return atoms[e]
+            if e.is_Add:
+                args = [to_z3(a) for a in e.as_ordered_terms()]
+                r = args[0]
+                for a in args[1:]:
+                    r = r + a
+                return r
+            if e.is_Mul:
+                args = [to_z3(a) for a in e.as_ordered_factors()]
+                r = args[0]
+                for a in args[1:]:
+                    r = r * a
+                return r
+            if e.is_Pow and e.exp.is_Integer and e.exp > 0:
+                b = to_z3(e.base)
+                r = b
+                for _ in range(int(e.exp) - 1):
+                    r = r * b
+                return r
+            raise NotImplementedError
+
+        import signal
+
+        def _alarm(signum, frame):
+            raise TimeoutError()
+
+        old = None
+        try:
+            try:
+                old = signal.signal(signal.SIGALRM, _alarm)
+                signal.setitimer(signal.ITIMER_REAL, 2.0)
+            except ValueError:
+                old = None  # not in the main thread: no time guard
+            e = sympy.cancel(sympy.together(to_sp(t)))
+            n, d = sympy.fraction(e)
+            n, d = sympy.expand(n), sympy.expand(d)
+            out = to_z3(n) if d == 1 else to_z3(n) / to_z3(d)
+        except (NotImplementedError, RecursionError, TimeoutError):
+            out = t
+        finally:
+            if old is not None:
+                signal.setitimer(signal.ITIMER_REAL, 0)
+                signal.signal(signal.SIGALRM, old)
+    _canon_cache[k] = (t, out)
+    return out
